@@ -120,12 +120,20 @@ def run_case(case):
                     line = "hx.travfrom 0 %d %s" % (regs[id(cached[0])], nibstr(cached[1]))
                     node = trie.traverse_from(cached[0], cached[1])
                 res.emit(line, "node " + hexlib.fmt_ann(node))
+                if cached is not None:
+                    # raw level: the cached (possibly stale) parent's children read from the database as it is now
+                    res.emit("hx.travfromd %d %s" % (regs[id(cached[0])], nibstr(cached[1])), "node " + hexlib.fmt_ann(node))
             except TraversedPartialPath as e:
                 res.emit(line, hexlib.fmt_traverse(lambda: (_ for _ in ()).throw(e)))
+                if cached is not None:
+                    res.emit("hx.travfromd %d %s" % (regs[id(cached[0])], nibstr(cached[1])),
+                             hexlib.fmt_traverse(lambda: (_ for _ in ()).throw(e)))
                 node = e.simulated_node
                 res.tags.add("simulated-node-used")
             except MissingTraversalNode as e:
                 res.emit(line, hexlib.fmt_exc(e))
+                if cached is not None:
+                    res.emit("hx.travfromd %d %s" % (regs[id(cached[0])], nibstr(cached[1])), hexlib.fmt_exc(e))
                 res.emit("hx.wstep 0 %s %d" % (nibstr(p), 1 if use_cache else 0), hexlib.fmt_exc(e))
                 if cached is None:
                     res.fail("walk-missing-node", "traverse(%s) from the root raised %r on a complete database" % (nibstr(p), e))
